@@ -26,6 +26,8 @@ def is_in_polygon(polygon, points, ncaps=0):
             p[key] = getattr(polygon, key)
         except AttributeError:
             p[key] = polygon[pmap[key]]
+    p['x'] = np.atleast_2d(p['x'])
+    p['cm'] = np.atleast_1d(p['cm'])
     usencaps = p['ncaps']
     if ncaps > 0:
         usencaps = min(ncaps, p['ncaps'])
